@@ -18,7 +18,71 @@ AX = {
     'P5': 'P5 container-valued fields are owned by their object (no aliasing of list/dict objects across owners)',
 }
 
+SERIAL_ONLY = 'parallel_handlers=True buses: the task-per-handler branch of _execute_handlers is outside the translator (tasks stored in a dict); the contracts require a serial bus, the parallel branch is NOT verified'
+HANDLER_MODEL = 'handlers are arbitrary user code: may call any public API, suspend, return anything, raise any Exception or CancelledError'
+
 PROPERTIES = {
+    'C01': {
+        'functions': ['EventBus._get_applicable_handlers', 'EventBus._would_create_loop', 'bubus.get_handler_id', 'EventBus._handler_dispatched_ancestor',
+                      'EventBus.process_event', 'EventBus._execute_handlers', 'EventBus.execute_handler', 'EventBus.step', 'EventBus._get_next_event',
+                      'BaseEvent.event_result_update', 'EventResult.update', 'EventBus._default_wal_handler', 'EventBus._default_log_handler',
+                      'BaseEvent.event_mark_complete_if_all_handlers_completed', 'EventBus.cleanup_event_history', 'BaseEvent.event_cancel_pending_child_processing',
+                      'BaseEvent.event_children', 'BaseEvent.event_are_all_children_complete', 'bubus.get_handler_name'],
+        'level': 'other',
+        'trusted_base': [AX[k] for k in ('A1', 'A2', 'A3', 'A5', 'A7', 'A8', 'A9', 'A10', 'X1', 'X2', 'P2', 'P5')] + [SERIAL_ONLY, HANDLER_MODEL,
+            'rely (interference at suspension points): terminal results never change, started results are only changed by their own execute_handler, results are never removed from an event',
+            'ghost counters: invoked (handler invocations), eh_calls (execute_handler activations), processed/dequeued (events entered/taken by this task)'],
+        'not_decided': ['the all-schedules at-most-once invariant Inv01 of DESIGN.md is decided only through its per-function pieces: selection == spec, one execute_handler per selected handler, '
+                        'one invocation per execute_handler with the result marked started before it, already-started results are filtered and refused, every dequeued event is handed to process_event once'],
+        'assumptions': [],
+    },
+    'C06': {
+        'functions': ['ReentrantLock._get_semaphore', 'ReentrantLock.__aenter__', 'ReentrantLock.__aexit__', 'bubus._get_global_lock', 'EventBus.step', 'EventBus._run_loop',
+                      'EventBus.process_event', 'EventBus._execute_handlers', 'EventBus.execute_handler', 'EventBus._get_next_event'],
+        'trusted_base': [AX[k] for k in ('A1', 'A2', 'A6', 'A7', 'A8', 'A10', 'X1', 'X2')] + [SERIAL_ONLY, HANDLER_MODEL,
+            'user tasks spawned by handlers do not outlive the handler while carrying its context (a copy with holds_global_lock=True)',
+            'the lock depth counter is not changed by other tasks while this task tree holds the lock (children finish their nested enter/exit pairs)',
+            'mutual exclusion itself is asyncio.Semaphore(1) (A6) given: a handler is invoked only with holds_global_lock set (call-site pre-condition of every invocation), the flag is set only '
+            'by __aenter__ together with acquiring the permit or inherited from the holder, it is released exactly when the outermost holder exits, and every run loop starts from a clean context'],
+        'not_decided': [],
+        'assumptions': [],
+    },
+    'C10': {
+        'functions': ['EventBus.execute_handler', 'EventBus._execute_handlers', 'EventBus.process_event', 'EventBus.step', 'EventResult.update', 'BaseEvent.event_result_update',
+                      'BaseEvent.event_cancel_pending_child_processing', 'EventBus._get_next_event'],
+        'level': 'other',
+        'trusted_base': [AX[k] for k in ('A1', 'A2', 'A3', 'A5', 'A8', 'A10', 'X1', 'X2')] + [SERIAL_ONLY, HANDLER_MODEL,
+            'event_cancel_pending_child_processing: contract assumed (recursive walk), not verified'],
+        'not_decided': ['that the cancellation lands at `timeout` seconds (timer accuracy is asyncio.wait_for, A3)',
+                        'the inline-processing path of BaseEvent.__await__ (finding F5: a timeout firing while the awaiting handler processes another event inline) is not under contract yet'],
+        'assumptions': [],
+    },
+    'C11': {
+        'functions': ['EventBus.execute_handler', 'EventBus._execute_handlers', 'EventBus.process_event', 'EventBus.step', 'EventBus._run_loop', 'EventResult.update',
+                      'BaseEvent.event_result_update', 'EventBus._get_next_event'],
+        'level': 'other',
+        'trusted_base': [AX[k] for k in ('A1', 'A2', 'A3', 'A8', 'A10', 'X1', 'X2')] + [SERIAL_ONLY, HANDLER_MODEL],
+        'not_decided': ['the result accessors (raise_if_any) are decided under C12'],
+        'assumptions': [],
+    },
+    'C17': {
+        'functions': ['EventBus.process_event', 'EventBus._default_wal_handler', 'EventBus._default_log_handler'],
+        'trusted_base': [AX[k] for k in ('A1', 'A8', 'A9', 'X1', 'X2')] + [SERIAL_ONLY,
+            'file system model: mkdir, open, write, close and model_dump_json may each fail with any Exception (all fault sequences); a failing close() does not replace a cancellation already propagating',
+            'ghost wal_lines = texts handed to file.write() on a file opened on self.wal_path in mode a'],
+        'not_decided': ['each line validates back into an equal event (pydantic serialiser round-trip): not decided here',
+                        'order of lines across events = order in which process_event activations finish their handler phase (follows from one append per activation + C06)'],
+        'assumptions': [],
+    },
+    'C08': {
+        'functions': ['EventBus.process_event', 'EventResult.update', 'BaseEvent.event_result_update', 'BaseEvent.event_mark_complete_if_all_handlers_completed',
+                      'BaseEvent.event_completed_at', 'BaseEvent.event_started_at', 'BaseEvent.event_status', 'BaseEvent.event_completed_signal'],
+        'level': 'other',
+        'trusted_base': [AX[k] for k in ('A1', 'A6', 'A10', 'X1', 'X2')],
+        'not_decided': ['the two-state invariant "signalled => results frozen" is decided through its writer-side obligations only: no result is created on a signalled event (fails: F4), '
+                        'the completion signal is never cleared, completed_at/started_at are set once, mark_complete never unsignals'],
+        'assumptions': [],
+    },
     'C09': {
         'functions': ['EventBus.dispatch', 'EventBus._start', 'CleanShutdownQueue.put_nowait', 'EventBus.cleanup_event_history', 'EventBus._run_loop',
                       'EventBus.step', 'EventBus._get_next_event'],
